@@ -4,10 +4,10 @@ import os, json
 import vlib
 
 TIERS = {
-    "quick": dict(runs=40, steps=70, depth=3, maxnodes=3000, sweepmax=40, simnum=25,
+    "quick": dict(runs=40, steps=70, depth=4, maxnodes=5000, mdepth=8, sweepmax=40, simnum=25,
                   exh=[(2, 5, 1, 1, "{5}"), (1, 4, 1, 1, "{4}"), (3, 6, 1, 1, "{2, 6}")], adv=[(1, 4, 2, 3, "{4}")],
                   sim=[(2, 5, 1, 1, "{3, 5}", 16), (3, 7, 1, 1, "{4, 7}", 14)]),
-    "thorough": dict(runs=600, steps=120, depth=4, maxnodes=40000, sweepmax=400, simnum=200,
+    "thorough": dict(runs=600, steps=120, depth=6, maxnodes=60000, mdepth=10, sweepmax=400, simnum=200,
                      exh=[(b, n, 1, 1, "{%d}" % n) for b in (1, 2, 3) for n in (3, 4, 5, 6, 7)] + [(2, 6, 1, 1, "{1, 6}"), (3, 7, 1, 1, "{2, 5, 7}")],
                      adv=[(1, 4, 2, 3, "{4}"), (1, 6, 0, 5, "{6}"), (2, 6, 2, 5, "{6}")],
                      sim=[(1, 4, 1, 1, "{2, 4}", 20), (2, 5, 1, 1, "{3, 5}", 18), (3, 7, 1, 1, "{4, 7}", 16), (2, 7, 1, 1, "{1, 7}", 22)]),
@@ -62,7 +62,16 @@ def produce(c, binhash):
         vlib.stage_spec(d, ["harbor", "sweep"])
         logf = os.path.join(d, "harbor.ndjson")
         sweepfile, mstats = sweep_models(c, d, t)
-        vlib.run_vh(["harbor", "--out", logf, "--seed", str(c.seed), "--runs", str(t["runs"]), "--steps", str(t["steps"]),
+        # vault model: Init = projection of the real fixture root; TLC checks the M_* invariants to t["mdepth"] and prints the action set
+        vlib.run_vh(["harbor", "--rootout", os.path.join(d, "root.ndjson")])
+        with open(os.path.join(d, "MC_Harbor_run.cfg"), "w") as f:
+            f.write('SPECIFICATION Spec\nCONSTANTS RootFile = "root.ndjson"  Depth = %d\n'
+                    'INVARIANTS M_Custody M_Count M_Totals M_Backed M_Floor M_Ceiling M_NonNeg\nCONSTRAINT DepthBound\nVIEW StView\nCHECK_DEADLOCK FALSE\n' % t["mdepth"])
+        actsfile = os.path.join(d, "acts.txt")
+        r = vlib.model_check(d, "MC_Harbor", "MC_Harbor_run.cfg", workers=8, timeout=1500, tfile=actsfile, heap="6g")
+        mstats["generated"] += r["generated"]; mstats["distinct"] += r["distinct"]
+        mstats["configs"].append("MC_Harbor depth %d: %d generated / %d distinct states, invariants M_Custody M_Count M_Totals M_Backed M_Floor M_Ceiling M_NonNeg hold" % (t["mdepth"], r["generated"], r["distinct"]))
+        vlib.run_vh(["harbor", "--acts", actsfile, "--out", logf, "--seed", str(c.seed), "--runs", str(t["runs"]), "--steps", str(t["steps"]),
                      "--depth", str(t["depth"]), "--maxnodes", str(t["maxnodes"]), "--sweep", sweepfile, "--sweepmax", str(t["sweepmax"])], timeout=3000)
         tr = vlib.trace_check(d, "Trace_Harbor", "Trace_Harbor.cfg", logf, workers=8 if c.tier == "thorough" else 4,
                               timeout=3400, heap="8g")
